@@ -440,7 +440,12 @@ impl<'a> G<'a> {
                         let seq = self.rng.chance(1, 2);
                         self.source(seq)
                     };
-                    let (a, b) = if v.rep == other.rep { (v, other) } else { (self.make_unlimited(v), self.make_unlimited(other)) };
+                    let (mut a, mut b) = if v.rep == other.rep { (v, other) } else { (self.make_unlimited(v), self.make_unlimited(other)) };
+                    if a.rep == Rep::Unlimited && b.rep == Rep::Unlimited && self.rng.chance(1, 4) {
+                        // one replica per host on both inputs: the zip block must still be a single replica
+                        a = self.push_op(a, UOp::Replicate(Rep::Host), Rep::Host, false, a.size);
+                        b = self.push_op(b, UOp::Replicate(Rep::Host), Rep::Host, false, b.size);
+                    }
                     let positional = a.total && b.total;
                     let out = self.fresh();
                     self.ops_used.push("Zip".into());
@@ -451,6 +456,11 @@ impl<'a> G<'a> {
                     self.open.push(VarInfo { id: out, rep: Rep::One, total: positional, size: a.size.min(b.size) });
                 }
                 5 if self.rng.chance(1, 2) => {
+                    let v = if v.rep == Rep::Unlimited && self.rng.chance(1, 4) {
+                        self.push_op(v, UOp::Replicate(Rep::Host), Rep::Host, false, v.size)
+                    } else {
+                        v
+                    };
                     let op = UOp::SplitZip { m: self.rng.range(2, 4), m2: self.rng.range(2, 4) };
                     let nv = self.push_op(v, op, Rep::One, false, v.size);
                     self.open.push(nv);
